@@ -163,3 +163,18 @@ def git_hash_object(ty: str, body: bytes):
     if rc != 0:
         return None
     return out.decode().strip()
+
+
+def dict_form_agrees(ctx, case, fn, obj, man):
+    """the (deprecated, still accepted) dictionary form of the argument gives the same manifest"""
+    import warnings
+
+    with warnings.catch_warnings():
+        warnings.simplefilter("ignore")
+        try:
+            got = fn(obj.to_dict())
+        except Exception as e:
+            ctx.fail(case, f"{fn.__name__} rejects the dictionary form of the object: {type(e).__name__}: {str(e)[:100]}", "dict-form-raises")
+            return
+    if got != man:
+        ctx.fail(case, f"{fn.__name__} gives another manifest for the dictionary form of the same object", "dict-form-differs")
